@@ -193,6 +193,14 @@ class _HP(HTMLParser):
     def handle_comment(self, data): self.buf.append('<!--%s-->' % data)
     def handle_decl(self, decl): self.buf.append('<!%s>' % decl)
     def handle_pi(self, data): self.buf.append('<?%s>' % data)
+    def unknown_decl(self, data): self.buf.append('<![%s]]>' % data)                  # marked section (CDATA): verbatim
+    def parse_bogus_comment(self, i, report=1):                                        # `<!X ...>`: verbatim, not as a comment
+        pos = self.rawdata.find('>', i + 2)
+        if pos == -1:
+            return -1
+        if report:
+            self.buf.append(self.rawdata[i:pos + 1])
+        return pos + 1
     def handle_entityref(self, name): self.buf.append('&%s;' % name)
     def handle_charref(self, name): self.buf.append('&#%s;' % name)
     def flush_text(self):
